@@ -54,6 +54,15 @@ class QueryBase[T](ABC):
     def _common_conditions(self):
         """Add conditions common to all queries."""
 
+        # Start from scratch every time the SQL is built: a query object is a
+        # value, so building its SQL (or running it) more than once must give
+        # the same statement and parameters. New lists are created (rather
+        # than clearing the old ones) because the parameter list returned by
+        # an earlier `to_sql` call may still be in use by a result generator
+        # that has not started executing yet.
+        self._conditions = []
+        self._params = []
+
         if self.filter is not None:
             # Handle all filter conditions in one go here. The filter
             # conditions are on the flights table, which we alias as 'f' in the
